@@ -868,3 +868,126 @@ Section Cohort.
   Definition group_calls (la : cans) (fa : list cans) : Z :=
     (if is_down la then 1 else 0) + Z.of_nat (length (filter is_down fa)).
 End Cohort.
+
+(* ================================================================== *)
+(* Concurrency, part 4: the authority fan-out of Resolver.lookup (resolver.go).
+
+   The servers of a zone (sorted, deduplicated) are started in list order: the
+   first two at once, each further one when the fallback timer fires or a
+   consumed result was no final answer.  [left] counts the results not yet
+   consumed, of started and unstarted servers alike.  One result is consumed
+   per pass of the inner loop:
+     error (timeout, connection error) -> fatalErrors; a request-tree work
+         rejection ends the lookup at once;
+     rcode != NOERROR -> responseErrors; NXDOMAIN ends the lookup when it is the
+         third response error or the zone is the root / a TLD (level < 2);
+     NOERROR referral that fails validReferral -> configErrors;
+     anything else is the answer.
+   After a non-final result, and after a timer: when the last server has been
+   started and results are outstanding, keep waiting; otherwise go on with the
+   main loop — start the next server, or, past the last one, fall out of the
+   loop into pickFallbackResponse.  Events (which result arrives when, when the
+   timer fires) come in any order: the theorems quantify over all schedules.
+   Not modelled: ctx.Done() (request-local, never published), the
+   resolution-attempt-limit error class inside fatalErrors, adaptive timer
+   values (a timer event may come at any time). *)
+Inductive srv :=
+| SHealthy                 (* NOERROR answer / valid referral *)
+| SRcode (rc : N)          (* a response with rcode rc and empty sections (rc = 0: as good as an answer) *)
+| SSilent                  (* no reply / connection error: queryServer hands back an error *)
+| SBogusReferral           (* NOERROR referral the zone has no business sending *)
+| SWorkLimit.              (* the exchange was refused by the request tree's work budget *)
+Inductive sstat := StUnstarted | StPending | StConsumed.
+Inductive fo_out :=
+| FOAnswer (i : nat)
+| FOResponse (rc : N)      (* pickFallbackResponse: a response error *)
+| FOConfig                 (* ... a bogus delegation *)
+| FOConnFailed             (* ... errConnectionFailed *)
+| FOWorkLimit
+| FONoServers.
+Record fo_state := mk_fo {
+  fo_index : nat;            (* main loop index: servers 0..index have been started *)
+  fo_stat : list sstat;
+  fo_left : nat;
+  fo_resp : list N;          (* responseErrors: rcodes in arrival order *)
+  fo_cfg : nat;              (* len(configErrors) *)
+  fo_fatal : nat;            (* len(fatalErrors) *)
+  fo_done : option fo_out }.
+Inductive fo_event := FoTimer | FoResult (i : nat).
+
+Definition rcode_nxdomain : N := 3%N.
+(* pickFallbackResponse *)
+Definition pick_fallback (resp : list N) (cfg fatal : nat) : fo_out :=
+  if existsb (N.eqb rcode_nxdomain) resp then FOResponse rcode_nxdomain else
+  match resp with
+  | rc :: _ => FOResponse rc
+  | [] => if (0 <? cfg)%nat then FOConfig else if (0 <? fatal)%nat then FOConnFailed else FONoServers
+  end.
+
+Definition fo_finish (st : fo_state) (o : fo_out) : fo_state :=
+  mk_fo (fo_index st) (fo_stat st) (fo_left st) (fo_resp st) (fo_cfg st) (fo_fatal st) (Some o).
+
+(* `if left > 0 && len(serversList)-1 == index { continue fallbackloop }; continue mainloop` *)
+Definition fo_advance (n : nat) (st : fo_state) : fo_state :=
+  let last := (S (fo_index st) =? n)%nat in
+  if (0 <? fo_left st)%nat && last then st
+  else if last then fo_finish st (pick_fallback (fo_resp st) (fo_cfg st) (fo_fatal st))
+  else mk_fo (S (fo_index st)) (set_nth (fo_stat st) (S (fo_index st)) StPending)
+             (fo_left st) (fo_resp st) (fo_cfg st) (fo_fatal st) None.
+
+Definition fo_step (servers : list srv) (level : nat) (st : fo_state) (ev : fo_event) : fo_state :=
+  let n := length servers in
+  match fo_done st with
+  | Some _ => st
+  | None =>
+      match ev with
+      | FoTimer => fo_advance n st
+      | FoResult i =>
+          match nth_error (fo_stat st) i with
+          | Some StPending =>
+              let stat := set_nth (fo_stat st) i StConsumed in
+              let left := pred (fo_left st) in
+              match nth i servers SSilent with
+              | SHealthy => fo_finish st (FOAnswer i)
+              | SWorkLimit => fo_finish st FOWorkLimit
+              | SSilent =>
+                  fo_advance n (mk_fo (fo_index st) stat left (fo_resp st) (fo_cfg st) (S (fo_fatal st)) None)
+              | SBogusReferral =>
+                  fo_advance n (mk_fo (fo_index st) stat left (fo_resp st) (S (fo_cfg st)) (fo_fatal st) None)
+              | SRcode rc =>
+                  if (rc =? 0)%N then fo_finish st (FOAnswer i) else     (* resp.Rcode == dns.RcodeSuccess *)
+                  let resp := fo_resp st ++ [rc] in
+                  let st1 := mk_fo (fo_index st) stat left resp (fo_cfg st) (fo_fatal st) None in
+                  if ((2 <? length resp)%nat || (level <? 2)%nat) && (rc =? rcode_nxdomain)%N
+                  then fo_finish st1 (pick_fallback resp (fo_cfg st) (fo_fatal st))
+                  else fo_advance n st1
+              end
+          | _ => st
+          end
+      end
+  end.
+Definition fo_init (n : nat) : fo_state :=
+  match n with
+  | O => mk_fo 0 [] 0 [] 0 0 (Some (pick_fallback [] 0 0))
+  | 1%nat => mk_fo 0 [StPending] 1 [] 0 0 None
+  | S (S m) => mk_fo 1 (StPending :: StPending :: repeat StUnstarted m) n [] 0 0 None
+  end.
+Definition fo_run (servers : list srv) (level : nat) (sched : list fo_event) : fo_state :=
+  fold_left (fo_step servers level) sched (fo_init (length servers)).
+
+(* What Resolver.resolve publishes: a fallback response of the server-failure class
+   (dnsutil.ClassifyResponse: every rcode but NOERROR and NXDOMAIN) with empty sections, or
+   the connection-failed error, goes to recordResolutionZoneFailure. *)
+Definition fo_published (o : fo_out) : bool :=
+  match o with
+  | FOResponse rc => negb (rc =? 0)%N && negb (rc =? rcode_nxdomain)%N
+  | FOConnFailed => true
+  | _ => false
+  end.
+(* a usable response: an answer, or NXDOMAIN (it answers the question) *)
+Definition srv_usable (s : srv) : bool :=
+  match s with
+  | SHealthy => true
+  | SRcode rc => (rc =? rcode_nxdomain)%N || (rc =? 0)%N
+  | _ => false
+  end.
